@@ -23,6 +23,7 @@ import RegexVerif.Lemmas.VM
 import RegexVerif.Lemmas.Compose
 import RegexVerif.Lemmas.StackTyping
 import RegexVerif.Lemmas.StackTypingStep
+import RegexVerif.Lemmas.StackTypingEmit
 
 namespace RegexVerif.Props.C10
 open RegexVerif RegexVerif.VM RegexVerif.Code RegexVerif.Lemmas.VM
@@ -232,12 +233,13 @@ theorem only_capRange (f : Fault) (h1 : f.structural = false) (h2 : disc f = fal
   cases f <;> first | rfl | (exact absurd h1 (by decide)) | (exact absurd h2 (by decide))
 
 /-- **(A) Soundness of the typing, Prop-level.**  A well-formed program with ANY grouping-stack typing `a`
-    (`Lemmas.StackTyping.Typing`: `[]` at position 0, closed and consistent under the transfer function `flow`): for every
+    (`TypingW`: `[]` at position 0, closed and consistent under the transfer function `flow`; `Lemmas.StackTyping.Typing`,
+    what `StackTyping.typed` checks, implies it): for every
     text, start position in the text, `\G` origin, oracle set and number of iterations, the attempt starts and its run
     never ends in `stackUnderflow`, `tracktoRange`, `textposRange`, `crawlUnderflow` nor in any structural fault — the
     only fault left is `capRange` (a backreference reading a captured interval that is not inside the text). -/
 theorem typing_sound (p : Prog) (h : p.wf = true) (bs : List Nat) (hb : p.boundaries = some bs)
-    (a : StackTyping.Assign) (hty : Typing p bs a)
+    (a : StackTyping.Assign) (hty : TypingW p bs a)
     (env : Env) (pos : Int) (h0 : 0 ≤ pos) (hn : pos ≤ env.len) (fuel : Nat) :
     ∃ s0, init p pos = .ok s0 ∧ ∀ f, (run p env fuel s0).1 = .fault f → f = .capRange := by
   obtain ⟨bs', hwf⟩ := wf_spec h
@@ -245,7 +247,7 @@ theorem typing_sound (p : Prog) (h : p.wf = true) (bs : List Nat) (hb : p.bounda
   subst e
   obtain ⟨s0, hi, hinv⟩ := tinit_inv (env := env) (a := a) hwf pos h0 hn
   refine ⟨s0, hi, fun f hf => ?_⟩
-  obtain ⟨h1, h2⟩ := trun_ok hwf (Typing.toW hty) fuel s0 hinv f hf
+  obtain ⟨h1, h2⟩ := trun_ok hwf hty fuel s0 hinv f hf
   exact only_capRange f h1 h2
 
 /-- **(A) Soundness of the evaluated check.**  `StackTyping.typed p = true` (what leg W evaluates on every compiled
@@ -256,7 +258,7 @@ theorem typed_no_discipline_fault (p : Prog) (h : p.wf = true) (ht : StackTyping
     (env : Env) (pos : Int) (h0 : 0 ≤ pos) (hn : pos ≤ env.len) (fuel : Nat) :
     ∃ s0, init p pos = .ok s0 ∧ ∀ f, (run p env fuel s0).1 = .fault f → f = .capRange := by
   obtain ⟨bs, hb, hty⟩ := typed_spec ht
-  exact typing_sound p h bs hb _ hty env pos h0 hn fuel
+  exact typing_sound p h bs hb _ (Typing.toW hty) env pos h0 hn fuel
 
 /-- non-vacuity: `demo` (`(?:ab?)*c`) and the program of `(a)|b\1` are well-formed and typed — the theorem applies
     to them on any input —, and the hypothesis `typed` cannot be dropped: `untypedDemo` (`Lazybranch 3; Getmark; Stop`)
@@ -266,6 +268,44 @@ example : ∃ s0, init demo 0 = .ok s0 ∧ ∀ f, (run demo demoEnv 1000 s0).1 =
 example : ∃ s0, init (Writer.emit Lemmas.Compose.info2 Lemmas.Compose.tree2) 1 = .ok s0 ∧
     ∀ f, (run (Writer.emit Lemmas.Compose.info2 Lemmas.Compose.tree2) demoEnv 1000 s0).1 = .fault f → f = .capRange :=
   typed_no_discipline_fault _ (by decide) (by decide) demoEnv 1 (by decide) (by decide) 1000
+
+/-- **(B) Every emitted program has a grouping-stack typing.**  For every tree with `treeWf` an explicit assignment —
+    the stack type as a structural function of the tree position (`Lemmas.StackTypingEmit.tyAt`: each node's code maps
+    a stack of type `σ` at its start to `σ` at its end, with the intermediate shapes of the writer's frames) — satisfies
+    `TypingW` for the program `syntax.Write` produces.
+    NOT proved: `StackTyping.typed (emit ti root) = true` (that the executable inference finds a typing — completeness
+    of `infer`); it is no longer needed for the guarantee below and stays evaluated by leg W. -/
+theorem emit_has_typing (ti : Writer.TreeInfo) (root : Writer.GoNode) (h : Writer.treeWf ti root = true) :
+    ∃ bs a, (Writer.emit ti root).boundaries = some bs ∧ TypingW (Writer.emit ti root) bs a :=
+  Lemmas.StackTypingEmit.emit_typing ti root h
+
+/-- the same for the bool-only program -/
+theorem emitQuick_has_typing (ti : Writer.TreeInfo) (root : Writer.GoNode) (h : Writer.treeWf ti root = true)
+    (qp : Prog) (hq : Writer.emitQuick ti root = some qp) : ∃ bs a, qp.boundaries = some bs ∧ TypingW qp bs a :=
+  Lemmas.StackTypingEmit.emitQuick_typing ti root h qp hq
+
+/-- **(C) No fault but `capRange` for any pattern** (partial: the full statement is "no fault at all").  For every
+    well-formed tree, every text, every start position inside the text, every `\G` origin, every oracle set and any
+    number of iterations: the attempt of the emitted program starts and its run never ends in a fault other than
+    `capRange` — none of the eight structural faults, no `stackUnderflow`, `tracktoRange`, `textposRange`,
+    `crawlUnderflow`.  No per-program hypothesis is left.
+    Missing for the full statement: `capRange` (`Ref` reading a captured interval outside the text), which needs the
+    capture arrays to hold only intervals inside `[0, len]` along the run (C08's builder invariants plus "every mark
+    `Capturemark` pops is a `pos` slot", which the typing provides). -/
+theorem emitted_no_fault_partial (ti : Writer.TreeInfo) (root : Writer.GoNode) (h : Writer.treeWf ti root = true)
+    (env : Env) (pos : Int) (h0 : 0 ≤ pos) (hn : pos ≤ env.len) (fuel : Nat) :
+    ∃ s0, init (Writer.emit ti root) pos = .ok s0 ∧
+      ∀ f, (run (Writer.emit ti root) env fuel s0).1 = .fault f → f = .capRange := by
+  obtain ⟨bs, a, hb, hty⟩ := emit_has_typing ti root h
+  exact typing_sound _ (emit_vm_wf ti root h) bs hb a hty env pos h0 hn fuel
+
+/-- the same for the bool-only program -/
+theorem emittedQuick_no_fault_partial (ti : Writer.TreeInfo) (root : Writer.GoNode) (h : Writer.treeWf ti root = true)
+    (qp : Prog) (hq : Writer.emitQuick ti root = some qp)
+    (env : Env) (pos : Int) (h0 : 0 ≤ pos) (hn : pos ≤ env.len) (fuel : Nat) :
+    ∃ s0, init qp pos = .ok s0 ∧ ∀ f, (run qp env fuel s0).1 = .fault f → f = .capRange := by
+  obtain ⟨bs, a, hb, hty⟩ := emitQuick_has_typing ti root h qp hq
+  exact typing_sound _ (emitQuick_vm_wf ti root h qp hq) bs hb a hty env pos h0 hn fuel
 
 end TypingSound
 
